@@ -83,6 +83,11 @@ META["C17"] = {
   "design_ref": "DESIGN.md §3 C17, §4",
   "note": "Level `other`: learn's clauses cannot be checked beyond the known finding; prune's callee facts are assumed at its call sites because prune does not establish fit's >= 2 classes precondition.",
   "technique": TECH}
+META["C10"] = {
+  "text": "Loop contracts of pre_compute_distance and get_distances (matrix entry = metric on the ordered pair, delimiter by extension) and Subgraph._build (identifier / features of node t) are discharged; the 10 weight-read sites of the models are checked as finite AST obligations (same nodes, same order in both arms; no stray read); the file round trip is an assumed external contract exercised end to end by the bounded channel on real .txt/.csv files with symmetric and asymmetric metrics. The semi-supervised positional-identifier gap is an open known finding (F8).",
+  "design_ref": "DESIGN.md §3 C10, §4",
+  "note": "Level `other`: file I/O is an assumed external contract; one open known finding.",
+  "technique": TECH + "; static AST obligations for the weight-read sites"}
 ALL = ["C%02d" % i for i in range(1, 21)]
 NOT_APPLICABLE = []
 def _na():
